@@ -1,4 +1,5 @@
 import KoordVerif.Model.C08
+import KoordVerif.Model.C08Ev
 import KoordVerif.Proofs.C08ExtConcThm
 import KoordVerif.Proofs.C08ExtGlue
 import KoordVerif.Proofs.C08ExtAgg
@@ -25,6 +26,12 @@ C08 — property theorems (DESIGN.md §4 C08).
     (`framework_faithful_iff_safe_skip`), and a safe Skip exists for DaemonSet pods only (`skip_safe_only_for_daemonset`,
     `daemonset_skip_is_safe`) - in particular "skip when the plugin-level profile has no non-zero threshold" is unsafe:
     a node's usage-thresholds annotation is merged in by Filter alone (`disabled_profile_skip_counterexample`)
+ 9. informer glue (Model/C08Ev.lean = the handler funcs NodeMetricHandler registers): an Update(old, new) puts the NEW object
+    in force whatever `old` is, so after any history the sums are the from-scratch value on the CURRENT NodeMetric object,
+    its spec (report interval) included (`metric_update_sums_from_new_object`, `spec_only_update_changes_interval`); a handler
+    that drops updates with an unchanged status is refuted (`metric_status_filter_counterexample`: 30 instead of 46 CPUs);
+    a status-only POD update is a no-op on the cache (`status_only_update_is_noop`) - the reason why the estimate must read
+    the spec only (tie_estimate_reads_spec_only)
 -/
 namespace KoordVerif.C08
 
@@ -814,5 +821,73 @@ example : filter cfgW (run cfgW [Ev.metric 1 reportA, Ev.add podW 90])
     { node := 1, hasNode := true, daemon := false, args := ⟨[some 50], [], none⟩, customKind := 0, custom := ⟨[], [], none⟩,
       filterExpired := 0, hasExp := false, expSec := 0, enableWhenExpired := -1, alloc := [21000], rawKind := 0, raw := [],
       pod := podW } = 0 := by decide
+
+
+/-! ### 9. NodeMetric informer glue -/
+
+/-- an Update event puts the NEW object in force, whatever the old object is. -/
+theorem metric_update_puts_new_object_in_force (cfg : Cfg) (c : Cache) (k : Nat) (old : Option Metric) (m : Metric) :
+    ((step cfg c (handle (.update k old m))).get k).metric = some m := by
+  simp [handle, step, get_set, Node.setMetric]
+
+/-- **from scratch on the CURRENT NodeMetric object (spec + status).**  After any history of pod events and NodeMetric
+informer events (Add / Update(old, new) / Delete through the registered handler) that ends with an Update of node `k`
+to the object `m` - spec-only, status-only or both, whatever `old` was - the cached sums of `k` are the from-scratch
+computation with `m`'s OWN report interval (spec) and `m`'s report (status) over the pods assigned to `k`. -/
+theorem metric_update_sums_from_new_object (cfg : Cfg) (evs : List Ev) (k : Nat) (old : Option Metric) (m : Metric) :
+    let c := run cfg (evs ++ [handle (.update k old m)])
+    (c.get k).sums = scratch cfg m (reportTime m) (c.get k).pods := by
+  intro c
+  apply cache_eq_from_report cfg (evs ++ [handle (.update k old m)]) k m
+  show ((run cfg (evs ++ [handle (.update k old m)])).get k).metric = some m
+  unfold run
+  rw [List.foldl_append]
+  exact metric_update_puts_new_object_in_force cfg _ k old m
+
+/-- in particular the interval in force is the new object's. -/
+theorem spec_only_update_changes_interval (cfg : Cfg) (c : Cache) (k : Nat) (old m : Metric) (_h : old.statusEq m = true) :
+    ((step cfg c (handle (.update k (some old) m))).get k).metric.map intervalOf = some (intervalOf m) := by
+  rw [metric_update_puts_new_object_in_force]; rfl
+
+def evCfg : Cfg := { d := 1, factors := [some 100], allowCustom := false, secSched := -1, secInit := -1,
+                     prodIncludeSys := false, fl := exactFloat }
+def evPod : PodDesc := { uid := 1, key := 1, cls := 1, prioVariant := 0, term := false, rsv := false, specNode := 1,
+                         sched := some ⟨true, some 100⟩, init := none, customFactors := [], customSched := -1, customInit := -1,
+                         res := [(16000, 0)] }
+def evMetric (interval : Int) : Metric :=
+  { hasUpd := true, updT := 300, interval := interval, hasInfo := true, nodeUsage := [30000], sysUsage := [0], aggs := [],
+    pods := [{ key := 1, prod := true, kind := 0, usage := [0] }] }
+def evBefore : Cache := run evCfg [.add evPod 100, handle (.add 1 (evMetric 60))]
+
+/-- the handler as written: the spec-only update 60 s -> 300 s is applied; the pod scheduled 200 s before the report is
+now inside the report interval and its estimate of 16 CPUs counts (30 + 16 = 46 CPUs). -/
+theorem metric_spec_only_update_applied :
+    (evMetric 60).statusEq (evMetric 300) = true ∧
+    ((evBefore.get 1).sums.nodeDelta = [0]) ∧
+    ((step evCfg evBefore (handle (.update 1 (some (evMetric 60)) (evMetric 300)))).get 1).sums.nodeDelta = [16000] ∧
+    (scratch evCfg (evMetric 300) (reportTime (evMetric 300)) (evBefore.get 1).pods).nodeDelta = [16000] := by decide
+
+/-- a handler that drops updates with an unchanged status keeps the sums of the OLD interval: they differ from the
+from-scratch value on the current object (30 instead of 46 CPUs). -/
+theorem metric_status_filter_counterexample :
+    ¬ (((handleStatusFiltered evCfg evBefore (.update 1 (some (evMetric 60)) (evMetric 300))).get 1).sums =
+        scratch evCfg (evMetric 300) (reportTime (evMetric 300))
+          ((handleStatusFiltered evCfg evBefore (.update 1 (some (evMetric 60)) (evMetric 300))).get 1).pods) := by decide
+
+/-- **a status-only pod update is a no-op on the cache**: OnUpdate renews a cached pod only when the PodSpec or the
+conditions differ from the cached object's (or the pod became terminal).  So the cached estimate is the estimate of the
+CURRENT pod object only because the estimate reads nothing but spec, conditions-derived times and (by design, see
+level_note) metadata: `estimatedPodUsed` must not read status.containerStatuses[].resources (Ties/C08.lean
+`tie_estimate_reads_spec_only`; the harness generates such statuses and status-only updates). -/
+theorem status_only_update_is_noop (cfg : Cfg) (c : Cache) (p : PodDesc) (now : Int) (o : PodInfo)
+    (hn : p.specNode ≠ 0) (hc : (c.get p.specNode).pods.find? (isUid p.uid) = some o)
+    (ht : p.term = false) (hs : specEq p o.desc = true) (hq : condEq p o.desc = true) :
+    onUpdate cfg c p.specNode p now = c := by
+  unfold onUpdate
+  simp [hn, hc, ht, hs, hq]
+
+/-- the hypotheses of `status_only_update_is_noop` are satisfiable: the pod of the example above, delivered again -/
+example : ((evBefore.get 1).pods.find? (isUid 1)).map (fun o => specEq evPod o.desc && condEq evPod o.desc) = some true := by
+  decide
 
 end KoordVerif.C08
